@@ -87,9 +87,9 @@ def cq_policy(p):
 def cq_cluster(c):
     cl, o = c["cluster"], c["obs"]
     pols = L(cq_policy(p) for p in o["pols"])
-    secs = L(S(s["key"]) for s in cl["secrets"] if s["ok"])
-    aps = L(cq_dep(a) for a in cl["ap"] if a["ok"])
-    svcs = L("(%s, %s)" % (S(s["key"]), "SvcExternalName" if s["external"] else "SvcPods") for s in cl["services"])
+    secs = L(S(s["key"]) for s in (cl.get("secrets") or []) if s["ok"])
+    aps = L(cq_dep(a) for a in (cl.get("ap") or []) if a["ok"])
+    svcs = L("(%s, %s)" % (S(s["key"]), "SvcExternalName" if s["external"] else "SvcPods") for s in (cl.get("services") or []))
     return "(Build_cluster %s %s %s %s)" % (pols, secs, aps, svcs)
 
 
@@ -304,13 +304,29 @@ TRUSTED = [
     "correspondence harness harness/overlay/internal/verifh/c15 + hook internal/k8s/zz_verif_c15.go on the real functions",
     "the harness's notion of dependency: the extended resource (minus PodsByIP and a minion's AppProtect/Dos fields, which the configurator does not "
     "read) changes when one object of the universe is deleted, changed, repaired or created",
-    "fake SecretStore / appprotect.Configuration implementations supplied through the interfaces the controller already uses; "
-    "the real appprotectdos.Configuration, Configuration, validators",
+    "fake SecretStore (both levels) and fake appprotect.Configuration (create*Ex level only) supplied through the interfaces the controller "
+    "already uses; real appprotectdos.Configuration, Configuration, validators; at event level the real informer handler functions, work "
+    "queue, lbc.sync, appprotect.Configuration and configs.Configurator with the real templates over a recording nginx.Manager",
+    "event level compares configuration files as multisets of lines (block order of e.g. APIKey maps follows Go map iteration: C09's subject)",
 ]
 
 
+def ensure_built():
+    """(re)build coq/Refs when a .vo is missing or older than its source (incremental, private makefile)"""
+    stale = False
+    for f in ("Refs/Model", "Refs/Proofs", "Refs/Cases", "Properties/C15"):
+        v, vo = os.path.join(C.COQ, f + ".v"), os.path.join(C.COQ, f + ".vo")
+        if not os.path.exists(vo) or os.path.getmtime(vo) < os.path.getmtime(v):
+            stale = True
+    if stale:
+        rc, out = C.coq_make(only=["Base", "Refs", "Properties/C15.v"], tag="c15")
+        if rc != 0:
+            raise C.TieBroken("coq/Refs does not build: %s" % out[-1500:])
+
+
 def check(run):
-    n = 400 if run.tier == "quick" else 4000
+    n = 700 if run.tier == "quick" else 5000
+    ensure_built()
     run.proof_obligations()
     binary = C.go_build("c15")
     out = os.path.join(C.WORK, "cases", "c15_%s.jsonl" % run.tier)
@@ -332,17 +348,27 @@ def check(run):
                        "namespace; TransportServer; Ingress with TLS/annotations/default+path backends and an optional rival owning a host; master with "
                        "1-3 minions incl. contested paths) over a random cluster of 2 namespaces x (4 services, 3 secrets, 4 policies of all kinds incl. "
                        "invalid / wrong class, 2 AP policies, 2 AP log confs, 2 DosProtectedResources) with missing and unusable objects; NGINX OSS / Plus / "
-                       "Plus+AppProtect+DoS.  A case is distinct by its full input and non-trivial when the resource depends on at least one object.")
+                       "Plus+AppProtect+DoS.  Per case: (a) the real createExtendedResources with recording stores, and again after deleting / changing / repairing / "
+                       "creating each of the 56+ objects of the universe (dependency = the result differs); (b) the real FindResourcesFor*, second-hop "
+                       "functions and endpoints filters for every object; (c) for every dependency and two non-dependencies, a fresh controller with the real "
+                       "Configurator and templates, the notification (add / update / irrelevant update / delete) through the real handler, work queue and "
+                       "lbc.sync, then: was the resource's file rewritten, and would a regeneration still change it.  A case is distinct by its full input "
+                       "and non-trivial when the resource depends on at least one object.")
     run.cov["trusted_base"] = TRUSTED
     run.assumptions += [
         "an ExternalName Service has no EndpointSlices (Kubernetes creates none); the generator never gives it one",
         "areCustomResourcesEnabled = true (the secret -> policy hop of syncSecret is guarded by it; without it no VirtualServer exists)",
         "names and namespaces of existing objects contain neither '/' nor ',' (hypothesis valid_name of the theorems)",
         "pods (subselector, health checks) are consulted by create*Ex but are not among the kinds C15 names; not modelled",
+        "second-level hops inside appprotectdos.Configuration (DosPolicy / DosLogConf -> DosProtectedResource) and App Protect user signatures "
+        "are not modelled and not driven; informer resync as a safety net is not modelled",
+        "one served resource (plus its minions / routes, optionally a rival Ingress) per Configuration: syncEndpointSlices updates all found "
+        "resources of a class as soon as one requires it, so with several resources [reaches] is a lower bound",
     ]
 
 
 def replay(run, path):
+    ensure_built()
     binary = C.go_build("c15")
     out = os.path.join(C.WORK, "cases", "c15_replay.jsonl")
     rc, log = C.run_harness(binary, ["-replay", path, "-out", out], timeout=600, env={"VERIF_REPO_DIR": C.REPO})
